@@ -34,7 +34,9 @@ type ckState struct {
 	hasVer bool
 }
 
-func readCheckpoint(srv *mredis.Server, name string) ckState { return readCheckpointFor(srv, name, incrSource) }
+func readCheckpoint(srv *mredis.Server, name string) ckState {
+	return readCheckpointFor(srv, name, incrSource)
+}
 
 func readCheckpointFor(srv *mredis.Server, name, source string) ckState {
 	var st ckState
@@ -409,7 +411,7 @@ func c04Batch(t *rapid.T) {
 	picks := make([][]int, k)
 	for i := range scripts {
 		sc := c03Script{startDB: -1}
-		sc.st = drawStream(t, streamOpts{maxCmds: 25, startSelect: true, dbs: []int{0, 1, 2, 5, 11, 12}, noCkKeys: true})
+		sc.st = drawStream(t, streamOpts{maxCmds: 25, startSelect: true, dbs: []int{0, 1, 2, 5, 11, 12}, noCkKeys: true, selectInTx: true})
 		sc.splits, sc.delays = drawSplits(t, len(sc.st.bytes), 1200*time.Millisecond)
 		scripts[i] = sc
 		offsets[i] = rapid.SampledFrom([]int64{0, 1000, 1 << 33}).Draw(t, "startOffset")
